@@ -110,13 +110,25 @@ def check_positive(case):
 def check_key(case):
     import bits.script
 
-    pt = ec.mul(case["k"], ec.G)
+    k = case["k"]
+    pt = ec.mul(k, ec.G)
     f = Fails()
+    cls = ["nt:valid-key"]
+    if case.get("edge"):
+        # next key whose compressed or uncompressed encoding starts (after the prefix) or ends with an ASCII whitespace
+        # byte or NUL: binary data that text-oriented clean-up (strip) would damage
+        for _ in range(2000):
+            encs = [ec.sec1_encode(pt, True), ec.sec1_encode(pt, False)]
+            if any(e[-1] in b"\t\n\x0b\x0c\r \x00" or e[1] in b"\t\n\x0b\x0c\r \x00" for e in encs):
+                break
+            k = k % (ec.N - 1) + 1
+            pt = ec.mul(k, ec.G)
+        cls.append("nt:key-bytes-with-whitespace-or-nul-at-an-end")
     for comp in (True, False):
         pk = ec.sec1_encode(pt, comp)
         spk = attempt(bits.script.scriptpubkey, pk)
         f.expect(spk == template("p2pk", pk), f"scriptpubkey/p2pk-ne-template/{'c' if comp else 'u'}", repr(spk)[:100])
-    return ["nt:valid-key"], f
+    return cls, f
 
 
 def check_negative(case):
@@ -280,7 +292,8 @@ def _targets(tier):
     return [
         Target("positive", check_positive, enumerate_=enum_positive, required=["nt:v1-len40", "nt:v16-len2", "nt:witness-version>=1", "nt:program-len-not-20-32"]),
         Target("positive-random", check_positive, strategy=lambda tier: positive_random(), budget={"quick": 3000, "thorough": 60000}),
-        Target("keys", check_key, strategy=lambda tier: st.fixed_dictionaries({"k": gen.scalars_valid()}), budget={"quick": 400, "thorough": 8000}),
+        Target("keys", check_key, strategy=lambda tier: st.fixed_dictionaries({"k": gen.scalars_valid(), "edge": st.sampled_from([False, False, True])}), budget={"quick": 400, "thorough": 8000},
+               required=["nt:key-bytes-with-whitespace-or-nul-at-an-end"]),
         Target("negative", check_negative, strategy=lambda tier: negative_cases(), budget={"quick": 5000, "thorough": 100000},
                required=["nt:pk-wrong-len-for-prefix", "nt:unknown-b58-version", "nt:mut-segwit", "nt:mut-b58", "nt:pk-hybrid", "expect-refuse",
                          "nt:segwit-bad-proglen", "nt:segwit-wrong-const", "nt:segwit-bad-version", "nt:segwit-nonzero-pad", "nt:pk-coord-aliased", "nt:b58-no-version"]),
